@@ -320,6 +320,11 @@ class LBCheck(BaseCheck):
         # inside one of them: a Close() that fails what is in flight, run from a completion's own bookkeeping):
         # the balancer lets go of a request before it hands the completion on, so it may have released those
         transit_ = sum(1 for r_ in w.completing if r_ is not done_req and r_['channel'] is ch_ and not r_['deliveries'])
+        # ... and a request whose deadline has just fired: the balancer releases it from the deadline's own
+        # callback chain, the caller gets its TimeoutError at the end of that chain (this delivery may be nested
+        # inside it: the release made the aperture contract and close this member)
+        transit_ += sum(1 for r_ in w.requests if r_ is not done_req and r_['channel'] is ch_ and not r_['deliveries']
+                        and r_ not in w.completing and r_['timeout'] is not None and r_['vt'] + r_['timeout'] <= env.now + 1e-6)
         if not (w.model_out(ch_) - transit_ <= attributed_load(node_) <= w.model_out(ch_)):
           violate('load:not-released-at-delivery', 'the completion of request %d was handed to the sink above the balancer while '
                   'the balancer still attributes load %d to %r (%d of its requests are outstanding, %d of them with their completion '
@@ -438,6 +443,11 @@ class LBCheck(BaseCheck):
           ss.join(ep)
           stats['joins'] += 1
       else:
+        if opened[0] and rng.random() < 0.06:
+          # the application makes sure the client is open before it uses it (DispatcherOpen again): the
+          # balancer is open already, nothing changes
+          classes.add('open-called-again')
+          w.top.Open()
         if idx % 6 == 3 and rng.random() < 0.15:
           # the wall clock is set back by hours (VM restore, manual reset) between two operations
           env.clock.wall_offset -= rng.choice([7200.0, 86400.0])
